@@ -26,6 +26,11 @@ const Sel SELS[8] = {
 };
 
 // one selection, prepared the way cli/operations.hh and unit_tests/tree_aut_test.hh do it
+// "relcopy" mode: the simulation handed to CheckInclusion is a COPY of the relation that was computed, and the variable it was
+// copied from is re-used for the simulation of another automaton before the call (as a client keeping relations in a container
+// would do).  A copy must be self-contained.
+// (defined in common.cc; the supervisor resets it before every case)
+
 json runIncl(const TA& a0, const TA& b0, const Sel& sel)
 {
 	SetStage(sel.name);
@@ -48,7 +53,21 @@ json runIncl(const TA& a0, const TA& b0, const Sel& sel)
 		sp.SetRelation(sel.down ? SimParam::e_sim_relation::TA_DOWNWARD : SimParam::e_sim_relation::TA_UPWARD);
 		sp.SetNumStates(states);
 		AutBase::StateDiscontBinaryRelation sim = u.ComputeSimulation(sp);
-		ip.SetSimulation(&sim);
+		if (!g_relCopy)
+		{
+			ip.SetSimulation(&sim);
+			return TA::CheckInclusion(a, b, ip) ? "T" : "F";
+		}
+		AutBase::StateDiscontBinaryRelation kept(sim);
+		TA other;
+		other.SetAlphabet(a.GetAlphabet());
+		for (const TA::Transition& t : a) { if (t.GetChildren().empty()) { other.AddTransition(TA::StateTuple(), t.GetSymbol(), 7); break; } }
+		other.SetStateFinal(7);
+		SimParam sp2;
+		sp2.SetRelation(SimParam::e_sim_relation::TA_DOWNWARD);
+		sp2.SetNumStates(1);
+		sim = other.ComputeSimulation(sp2);
+		ip.SetSimulation(&kept);
 		return TA::CheckInclusion(a, b, ip) ? "T" : "F";
 	}
 	catch (const std::exception& e)
@@ -127,6 +146,7 @@ VDRIVE_OP(incl)
 	// "bmode": "alias" = the SAME object is passed as both operands, "copy" = B is a copy of A sharing its storage
 	// (the case then carries B = A as value)
 	std::string bmode = c.value("bmode", "");
+	g_relCopy = c.value("relcopy", false);
 	TA b0 = MakeTA(c.at("B"), alpha);
 	TA a;
 	BuildMaybeSplit(a, c, alpha, [&b0](TA& x) { for (const Sel& sel : SELS) { runIncl(x, b0, sel); runIncl(b0, x, sel); } });
@@ -535,6 +555,7 @@ void MakeTwin(const json& ja, const json& jb, unsigned tseed, json& ta2, json& t
 VDRIVE_OP(twin)
 {
 	Alpha alpha;
+	g_relCopy = c.value("relcopy", false);
 	TA a = MakeTA(c.at("A"), alpha);
 	TA b = MakeSecond(a, c, alpha);
 	json v = json::array(), vt = json::array();
@@ -619,6 +640,7 @@ VDRIVE_OP(inclagree)
 			jb["fin"] = fin; jb["rules"] = rules;
 		}
 		SetStage(("inclagree pair " + std::to_string(i)).c_str());
+		g_relCopy = (i % 3 == 0);
 		Alpha alpha;
 		TA a = MakeTA(ja, alpha);
 		json second;
@@ -656,6 +678,7 @@ VDRIVE_OP(inclagree)
 			ev["op"] = twin ? "twin" : "incl";
 			ev["A"] = ja; ev["B"] = jb;
 			if (edit) { ev["bmode"] = "extend"; }
+			if (g_relCopy) { ev["relcopy"] = true; }
 			ev["outcome"] = "ok";
 			ev["src"] = "agreement-arm";
 			ev["id"] = json::array({"agree", c.at("seed"), i});
